@@ -20,3 +20,16 @@ PROPS = {
                       "big.Rat.SetString beyond the modelled decimal grammar (base prefixes, '_', binary exponents, a/b) and the lenient fallback of time.Parse are outside the model and not generated"],
              assumptions=["prime p odd and >= 3 for the range theorems", "time_inj needs p > 4*10^20 (true of BN254)"]),
 }
+
+NOT_APPLICABLE = {}
+
+MANIFEST_TEXT = {
+    "C04": dict(
+        text="Lean theorems about the XSD value model (Gsp.Xsd): the code's integer ranges equal the statement's table for every odd prime (range_is_table), "
+             "acceptance iff in range (int_accept_iff), encoding v / p+v never reduced and below p (int_enc), injectivity on every range (int_inj), "
+             "non-integral and non-numeric forms rejected, spelling independence, exact boolean table and encoding, dateTime = Unix ns mod p, offset shift, "
+             "bare date = midnight UTC, injectivity of instants for p > 4e20. The model is tied to the code by running HashValueWithHasher and the model on the same "
+             "cases (whole field enumerated for p in {3,5,7,251}; boundaries for 65537, 2^61-1, BN254) plus a direct predicate computed with math/big from the statement's table.",
+        note="Model fidelity is checked by differential execution, not proved. ParseFloat/GetCanonicalDouble are an oracle column. big.Rat spellings outside the decimal grammar "
+             "and time.Parse's lenient fallback are outside the model."),
+}
